@@ -83,6 +83,77 @@ def directed_histories():
                 out.append(("hist %s 1 (job %s %s) (job %s %s) (job %s none)" % (sch, fsv, fb, fsv2, fb2, psv), (sch, 1, psv, [fk, fk2])))
     return out
 
+def large_value_histories(rng, tier):
+    """pooled buffers that GREW: a field presented before its turn is serialized into a pooled temporary buffer, which goes back
+    to the pool when it has been flushed (in-order flush loop, end(), Drop after a failure) -- here with values of 4 KB .. 200 KB
+    (around 4 KiB, 64 KiB, 128 KiB: the sizes at which an implementation might trim / replace a buffer), in every shape that
+    buffers (string / bytes / sequence-as-bytes field first, nested record first with its own fields reversed, map form), the
+    job succeeding, failing late, or hitting a sink error far into the value; then every kind of probe that takes a pooled buffer"""
+    N = G.Node
+    hx = C.hx
+    nodes = [N("record", name="R", fields=[("a", 1), ("b", 2), ("c", 3), ("d", 4)]), N("int"),
+             N("record", name="Nn", fields=[("x", 1), ("y", 3)]), N("string"), N("bytes")]
+    sch = G.schema_sx(nodes)
+    def st(name, *fs):
+        return "(struct %s %d%s)" % (hx(name), len(fs), "".join(" (%s %s)" % (hx(f), v) for f, v in fs))
+    def mp(*fs):
+        return "(map none%s)" % "".join(" (entry (str %s) %s)" % (hx(f), v) for f, v in fs)
+    nn_ok = st("Nn", ("x", "(i32 7)"), ("y", "(str %s)" % hx("yy")))
+    nn_rev = st("Nn", ("y", "(str %s)" % hx("yy")), ("x", "(i32 7)"))
+    a, c, d = "(i32 1)", "(str %s)" % hx("hi"), "(bytes x0102)"
+    dseq = "(seq none (u8 1) (u8 2) (u8 3))"
+    probes = [
+        ("reordered", st("R", ("d", d), ("c", c), ("b", nn_rev), ("a", a))),
+        ("seq-to-bytes", st("R", ("a", a), ("b", nn_ok), ("c", c), ("d", dseq))),
+        ("seq-to-bytes-reordered", st("R", ("d", dseq), ("b", nn_rev), ("c", c), ("a", a))),
+        ("map-reordered", mp(("c", c), ("d", d), ("a", a), ("b", nn_rev))),
+        ("in-order", st("R", ("a", a), ("b", nn_ok), ("c", c), ("d", d))),
+    ]
+    def text(n):
+        return bytes(0x20 + rng.randrange(90) for _ in range(n))
+    def shapes(n):
+        bs = "(str %s)" % hx(text(n))
+        bb = "(bytes %s)" % hx(rng.randbytes(n))
+        nn_big_rev = st("Nn", ("y", bs), ("x", "(i32 7)"))
+        nn_big = st("Nn", ("x", "(i32 7)"), ("y", bs))
+        out = [
+            ("string-field-first", st("R", ("c", bs), ("a", a), ("b", nn_ok), ("d", d))),
+            ("string-field-first-flushed-last", st("R", ("c", bs), ("d", d), ("b", nn_ok), ("a", a))),
+            ("bytes-field-first", st("R", ("d", bb), ("a", a), ("b", nn_ok), ("c", c))),
+            ("nested-first-reversed", st("R", ("b", nn_big_rev), ("a", a), ("c", c), ("d", d))),
+            ("nested-in-order-inner-reversed", st("R", ("a", a), ("b", nn_big_rev), ("c", c), ("d", d))),
+            ("map-form", mp(("c", bs), ("b", nn_big), ("a", a), ("d", d))),
+            ("two-buffers", st("R", ("d", bb), ("c", bs), ("a", a), ("b", nn_ok))),
+        ]
+        if n <= 5000:       # (the model's sequence-as-bytes serializer is quadratic in the number of elements)
+            out.append(("seq-to-bytes-first", st("R", ("d", "(seq none %s)" % " ".join("(u8 %d)" % rng.randrange(256) for _ in range(n))), ("a", a), ("b", nn_ok), ("c", c))))
+        return out
+    sizes = [4095, 4097, 65535, 65536, 65537, 70000, 100000, 131073, 200000, rng.randint(66000, 200000)]
+    if tier == "quick":
+        sizes = [rng.choice([4095, 4097]), 65535, rng.choice([65536, 65537]), 70000, rng.choice([100000, 131073]), 200000, rng.randint(66000, 200000)]
+    out = []
+    k = rng.randrange(100)
+    for n in sizes:
+        for sk, sv in shapes(n):
+            k += 1
+            fate = ["ok", "ok", "ok", "fails-late", "sink-fails-far"][k % 5] if tier == "quick" else None
+            for ft in ([fate] if fate else ["ok", "fails-late", "sink-fails-far"]):
+                if ft == "ok":
+                    job = "(job %s none)" % sv
+                elif ft == "fails-late":
+                    # the last leaf of the presentation replaced by a failing one: everything before it has been buffered / written
+                    i = sv.rstrip(")").rfind("(")
+                    job = "(job %s none)" % (sv[:i] + "fail" + ")" * (sv.count("(", 0, i) - sv.count(")", 0, i)))
+                else:
+                    job = "(job %s %d)" % (sv, rng.choice([n - 1, n // 2, n + 3]))
+                pks = probes if tier != "quick" else [probes[k % 5], probes[(k + 2) % 5]]
+                for pk, psv in pks:
+                    out.append(("hist %s 1 %s (job %s none)" % (sch, job, psv), (sch, 1, psv, ["large-%s-%s" % (sk, ft)])))
+                if ft == "ok" and (tier != "quick" or k % 3 == 0):
+                    pk, psv = probes[k % 5]
+                    out.append(("hist %s 1 %s %s (job %s none)" % (sch, job, job, psv), (sch, 1, psv, ["large-%s-%s" % (sk, ft)] * 2)))
+    return out
+
 def run(ctx):
     rng = random.Random(ctx["seed"] * 1000003 + 14)
     nh = 500 if ctx["tier"] == "quick" else 20000
@@ -115,7 +186,14 @@ def run(ctx):
         meta.append((sch, slow, probe, kinds))
     for line, m in directed_histories():
         lines.append(line); meta.append(m)
-    impl, model = codec.both(lines)
+    nsmall = len(lines)
+    for line, m in large_value_histories(rng, ctx["tier"]):
+        lines.append(line); meta.append(m)
+    impl, model = codec.both(lines[:nsmall])
+    # the large ones: the extracted model recurses along the value's bytes (large stack)
+    import cont
+    impl += C.run_parallel(C.AVRODRIVE, lines[nsmall:], jobs=16)
+    model += cont.run_model(lines[nsmall:])
     fresh = C.run_parallel(C.AVRODRIVE, ["hist %s %d (job %s none)" % (sch, slow, probe) for sch, slow, probe, _ in meta])
     violations, diffs, samples, distinct = [], [], [], set()
     from collections import Counter
@@ -142,11 +220,16 @@ def run(ctx):
         if probe_reused != probe_fresh:
             violations.append({"impl_case": line, "what": "the probe on the reused configuration differs from the probe on a fresh one",
                                "reused": probe_reused[:300], "fresh": probe_fresh[:300]})
+        if len(line) > 20000:
+            dist["large-values/" + kinds[0].split("-")[-1]] += 1
         if len(samples) < 5:
             samples.append({"history": kinds, "probe_outcome": probe_reused[:40]})
     return {"evaluations": len(lines) + len(fresh), "distinct_nontrivial": len(distinct),
             "rule": "histories of 1..6 to_datum calls on one SerializerConfig: successful values (random presentations incl. out-of-order and "
                     "omitted record fields, buffered byte sequences), values failing at a random depth (Serialize impl error, type mismatch), sinks "
-                    "failing after 0..40 bytes; then a probe, compared with the same probe on a fresh configuration; model vs crate: every "
+                    "failing after 0..40 bytes; then a probe, compared with the same probe on a fresh configuration; directed: every kind of half-way failure x "
+                    "every kind of probe taking a pooled buffer; LARGE values (4 KB .. 200 KB around 4 KiB / 64 KiB / 128 KiB) in fields presented before their turn "
+                    "(string / bytes / sequence-as-bytes / nested record / map form / two buffers at once), the job succeeding (buffer flushed by the in-order "
+                    "loop or at the end), failing late or hitting a sink error far into the value, once or twice, then a probe; model vs crate: every "
                     "call's outcome and bytes",
             "samples": samples, "violations": violations, "model_diffs": diffs, "distribution": dict(dist)}
